@@ -152,7 +152,14 @@ class Gen:
                 elif kind == "attr_fn":
                     body.append("self._kw = kwargs")
                     use = rnd.choice(["method", "property"])
-                    extra = (f"    def run(self):\n        return {fn}(**self._kw)\n" if use == "method" else f"    @property\n    def data(self):\n        return {fn}(**self._kw)\n")
+                    hc = ""
+                    if rnd.chance(0.4):
+                        # a keyword hard-coded at the call that consumes the stored kwargs is not a parameter
+                        h = rnd.choice(sorted(fm))
+                        hc = f"{h}={SAMPLE[fm[h][0]]!r}, "
+                        fm = {k: v for k, v in fm.items() if k != h}
+                        pats.append("hard")
+                    extra = (f"    def run(self):\n        return {fn}({hc}**self._kw)\n" if use == "method" else f"    @property\n    def data(self):\n        return {fn}({hc}**self._kw)\n")
                     m.update(fm)
                 else:
                     h = rnd.choice(sorted(fm))
